@@ -155,7 +155,7 @@ func (t Time) Add(input Quantity) (Time, error) {
 		return Time{}, err
 	}
 	duration = roundToTimePrecision(timeMap[t.l], duration)
-	return Time{t.time.Add(duration), t.l}, nil
+	return Time{wrapToDay(t.time, t.time.Add(duration)), t.l}, nil
 }
 
 // Sub returns the result of the time-valued quantity subtracted from t.
@@ -166,7 +166,14 @@ func (t Time) Sub(input Quantity) (Time, error) {
 		return Time{}, err
 	}
 	duration = roundToTimePrecision(timeMap[t.l], duration)
-	return Time{t.time.Add(-duration), t.l}, nil
+	return Time{wrapToDay(t.time, t.time.Add(-duration)), t.l}, nil
+}
+
+// wrapToDay keeps the time of day of result on the calendar day of base, so
+// that a Time that wrapped around midnight still compares by time of day.
+func wrapToDay(base, result time.Time) time.Time {
+	return time.Date(base.Year(), base.Month(), base.Day(),
+		result.Hour(), result.Minute(), result.Second(), result.Nanosecond(), base.Location())
 }
 
 // roundToTimePrecision is used to round down to the highest precision of
